@@ -391,6 +391,10 @@ func main() {
 		return
 	}
 
+	if prop == "determinism" {
+		determinism(simBin, env, bdir, tier, seed)
+		return
+	}
 	fmt.Printf("simcheck property=%s tier=%s seed=%d workers=%d budget=%ds (build %.1fs)\n", prop, tier, seed, nw, budgetS, buildS)
 	var wg sync.WaitGroup
 	results := make([]workerResult, nw)
@@ -668,4 +672,105 @@ func firstStrings(xs []string, n int) []string {
 		return xs[:n]
 	}
 	return xs
+}
+
+// determinism: the same worker seed must give the same event logs and
+// outputs in fresh processes at GOMAXPROCS 1, 4 and 16.
+func determinism(simBin string, env []string, bdir, tier string, seed uint64) {
+	targets := strings.Fields(os.Getenv("VERIF_DETERMINISM_TARGETS"))
+	if len(targets) == 0 {
+		targets = []string{"C01", "C04", "C10", "C18"}
+	}
+	nseeds := 4
+	if tier == "thorough" {
+		nseeds = 12
+	}
+	type job struct {
+		target string
+		seed   uint64
+		cpu    string
+		rep    int
+	}
+	var jobs []job
+	for _, t := range targets {
+		for s := 0; s < nseeds; s++ {
+			for _, cpu := range []string{"1", "4", "16"} {
+				for rep := 0; rep < 2; rep++ {
+					jobs = append(jobs, job{t, splitmix64(seed + uint64(s)*977), cpu, rep})
+				}
+			}
+		}
+	}
+	out := make([]string, len(jobs))
+	sem := make(chan struct{}, 16)
+	var wg sync.WaitGroup
+	for i, j := range jobs {
+		wg.Add(1)
+		sem <- struct{}{}
+		go func(i int, j job) {
+			defer wg.Done()
+			defer func() { <-sem }()
+			dir := filepath.Join(bdir, fmt.Sprintf("d%d", i))
+			os.MkdirAll(dir, 0o755)
+			dig := filepath.Join(dir, "digests.txt")
+			logf, _ := os.Create(filepath.Join(dir, "log"))
+			cmd := exec.Command(simBin, "-test.run", "^TestVerifSim$", "-test.cpu", j.cpu, "-test.timeout", "0", "-rapid.nofailfile",
+				"-verif.property="+j.target, "-verif.tier=quick", "-verif.seed="+strconv.FormatUint(j.seed, 10), "-verif.budget=10m",
+				"-verif.maxbatches=2", "-verif.checks=20", "-verif.out="+dir, "-verif.digests="+dig)
+			cmd.Dir = dir
+			cmd.Env = env
+			cmd.Stdout, cmd.Stderr = logf, logf
+			cmd.Run()
+			logf.Close()
+			b, _ := os.ReadFile(dig)
+			out[i] = string(b)
+		}(i, j)
+	}
+	wg.Wait()
+	groups := map[string][]int{}
+	for i, j := range jobs {
+		k := fmt.Sprintf("%s/%d", j.target, j.seed)
+		groups[k] = append(groups[k], i)
+	}
+	bad := 0
+	runs := 0
+	for k, idx := range groups {
+		ref := out[idx[0]]
+		runs += strings.Count(ref, "\n")
+		if ref == "" {
+			fmt.Printf("TROUBLE: determinism: no digests for %s\n", k)
+			bad++
+			continue
+		}
+		for _, i := range idx[1:] {
+			if out[i] != ref {
+				a, b := strings.Split(ref, "\n"), strings.Split(out[i], "\n")
+				nd := 0
+				first := ""
+				for x := 0; x < len(a) && x < len(b); x++ {
+					if a[x] != b[x] {
+						nd++
+						if first == "" {
+							first = fmt.Sprintf("run %d: %q vs %q", x, a[x], b[x])
+						}
+					}
+				}
+				fmt.Printf("NONDETERMINISM: %s: GOMAXPROCS=%s rep=%d differs from GOMAXPROCS=%s rep=%d in %d of %d runs; first: %s\n", k, jobs[i].cpu, jobs[i].rep, jobs[idx[0]].cpu, jobs[idx[0]].rep, nd, len(a), first)
+				bad++
+			}
+		}
+	}
+	fmt.Printf("determinism: %d (target, seed) groups x 6 fresh processes, %d simulated runs per configuration compared, %d groups differ\n", len(groups), runs, bad)
+	ev := map[string]interface{}{
+		"property_id": "determinism", "tier": tier, "seed": int64(seed), "level": "other", "wall_s": 0.0,
+		"coverage": map[string]interface{}{"explanation": "self-test: same seed, fresh processes, GOMAXPROCS 1/4/16, two repetitions each; digests of event logs (with fake timestamps), stdout and stderr compared",
+			"groups": len(groups), "runs_compared_per_configuration": runs, "differing_groups": bad, "targets": targets},
+		"violations": bad,
+	}
+	b, _ := json.MarshalIndent(ev, "", " ")
+	os.MkdirAll(filepath.Join(home(), "evidence"), 0o755)
+	os.WriteFile(filepath.Join(home(), "evidence", "selftest-determinism.json"), b, 0o644)
+	if bad > 0 {
+		os.Exit(2)
+	}
 }
